@@ -13,12 +13,16 @@ subprocess.run(["git", "-C", "/repo", "worktree", "remove", "--force", wt], capt
 subprocess.run(["git", "-C", "/repo", "worktree", "add", "-q", "--detach", wt, "HEAD"], check=True)
 def run_demo(demo):
     dst = os.path.join(wt, os.path.basename(demo))
-    shutil.copy(demo, dst)
+    # demos sometimes name their author's worktree: point them at the scratch worktree under test
+    import re as _re
+    txt = open(demo).read()
+    txt = _re.sub(r"/tmp/wt\d*/C\d\d", wt, txt)
+    open(dst, "w").write(txt)
     if os.path.basename(demo).startswith("test_"):
         cmd = ["/venv/bin/python", "-m", "pytest", "-q", "-x", "-p", "no:cacheprovider", os.path.basename(demo)]
     else:
         cmd = ["/venv/bin/python", os.path.basename(demo)]
-    r = subprocess.run(cmd, cwd=wt, capture_output=True, text=True, timeout=600)
+    r = subprocess.run(cmd, cwd=wt, capture_output=True, text=True, timeout=600, env={**os.environ, "WT": wt})
     os.remove(dst)
     return r.returncode, (r.stdout + r.stderr)[-400:]
 try:
